@@ -965,7 +965,7 @@ impl TextPane for Buffer {
                 }
                 crate::Mode::Chars => {
                     // layers are looked at topmost first: the first override found is the one that is shown
-                    if ch_opt.is_none() && !ch.is_transparent() {
+                    if ch_opt.is_none() && ch.is_visible() && !ch.is_transparent() {
                         ch_opt = Some(ch.ch);
                     }
                 }
